@@ -16,7 +16,7 @@ MODES = ["l", "lv", "v", "vv"]
 def build_traces(pid, rng, sc, tier, ev, hostile=False, n=None):
     lha = V.lha_binary("san")
     hd = V.build_driver("header_drv", "san")
-    n = n or (60 if tier == "quick" else 1500)
+    n = n or (60 if tier == "quick" else 8000)
     archives = [LG.make_archive(rng, sc, "a%d" % i, hostile=hostile) for i in range(n)]
     # corpus archives too (third-party headers)
     import glob
